@@ -39,7 +39,6 @@ theorem c18_effect_needs_role (ep : Endpoint) (l : Line)
       · simp [step, h2] at h
       · exact absurd h3 h
     · exact ⟨r, role, rfl, hc, hr, hdbg, (findHandler_isSome_iff _).1 (by simp [hf])⟩
-  | notUtf8 => simp [step, Reply.carriesData] at h
   | notJson => simp [step, Reply.carriesData] at h
   | notRequest => simp [step, Reply.carriesData] at h
 
@@ -149,7 +148,6 @@ theorem c18_history_unauth_silent (ep : Endpoint) (t : String) (htok : ep.authTo
           rcases handleRequest_cases cur r with ⟨⟨h1, h2, h3⟩, _⟩ | ⟨role, _, _, hc, _⟩
           · exact ⟨h3, h1, h2⟩
           · rw [hnone] at hc; cases hc
-        | notUtf8 => exact ⟨rfl, rfl, rfl⟩
         | notJson => exact ⟨rfl, rfl, rfl⟩
         | notRequest => exact ⟨rfl, rfl, rfl⟩
       obtain ⟨hp, hfx, hcd⟩ := hstep
@@ -278,22 +276,21 @@ theorem c18_malformed_no_effect (ep : Endpoint) (l : Line) (h : ∀ r, l ≠ .re
     (step ep l).1 = ep ∧ (step ep l).2.fx = [] ∧ (step ep l).2.reply.carriesData = false :=
   step_malformed ep l h
 
-/-- Malformed input that is at least text (valid UTF-8) gets the error reply `invalid request`. -/
-theorem c18_malformed_error_reply_partial (ep : Endpoint) (l : Line) (h : ∀ r, l ≠ .request r)
-    (hutf8 : l ≠ .notUtf8) : (step ep l).2.reply = .invalid := by
+/-- **Malformed input yields an error reply**: every line that is not a request — whatever its bytes;
+`read_request_line` decodes lossily, so there is no line the parser does not get to see — is answered
+with the error reply `invalid request: …` carrying id 0, and the connection goes on (`step` is total:
+every line has a reply).  Before fix 2c1da06 a line that was not valid UTF-8 ended the connection
+without a reply (former finding `C18-nonutf8-line-no-reply`; its witness stays in the harness corpus). -/
+theorem c18_malformed_error_reply (ep : Endpoint) (l : Line) (h : ∀ r, l ≠ .request r) :
+    (step ep l).2.reply = .invalid := by
   cases l with
   | request r => exact absurd rfl (h r)
-  | notUtf8 => exact absurd rfl hutf8
   | notJson => rfl
   | notRequest => rfl
 
-/-- **Counterexample to "malformed input yields an error reply"**: a line that is not valid UTF-8 gets no
-reply at all — `BufRead::lines` fails, `map_while(Result::ok)` ends the client loop and the connection
-is dropped (no crash, no effect, but no error reply either).  Recorded as finding
-`C18-nonutf8-line-no-reply`. -/
-theorem c18_counterexample_nonutf8_no_reply (ep : Endpoint) :
-    (step ep .notUtf8).2.reply = .closed ∧ (step ep .notUtf8).2.reply ≠ .invalid := by
-  exact ⟨rfl, fun h => by cases h⟩
+/-- Non-vacuity of the two theorems above. -/
+example : (∀ r, Line.notJson ≠ .request r) ∧ (∀ r, Line.notRequest ≠ .request r) :=
+  ⟨fun _ h => Line.noConfusion h, fun _ h => Line.noConfusion h⟩
 
 /-! ## Pairing -/
 
